@@ -704,6 +704,10 @@ func (env *specEnv) evalCall(x *SCall) TV {
 		argn(1)
 		a := env.eval(x.Args[0])
 		return TV{T: app("select", env.heap("G|chan.sent|Int"), a.T), Sort: "Int"}
+	case "drained": // drained(ch): some receive on ch has reported "closed and empty"
+		argn(1)
+		a := env.eval(x.Args[0])
+		return TV{T: app("select", env.heap("G|chan.drained|Bool"), a.T), Sort: "Bool"}
 	case "closed":
 		argn(1)
 		a := env.eval(x.Args[0])
